@@ -12,3 +12,4 @@ import TvCore.Props.C05
 #print axioms TV.C05.ceilMs_whole
 #print axioms TV.C05.witness_submilli
 #print axioms TV.C05.timer_whole_ms_instance
+#print axioms TV.C05.stepEnd_keeps_running
